@@ -76,6 +76,7 @@ type PkgContracts struct {
 	Ghosts    map[string]*GhostFunc
 	GhostVars map[string]*GhostVar
 	Axioms    []*Axiom
+	Invariants []*Clause // package-level invariants
 	Pure      map[string]bool // FullName keys
 	Order     []string
 }
@@ -123,7 +124,7 @@ var (
 	reAtLoop    = regexp.MustCompile(`^at\s+loop\s+(\d+)\s+(body|exit)\s+(assert|ghost|assume)\s*`)
 )
 
-var clauseKeywords = []string{"requires", "ensures", "assigns", "loop ", "at ", "after ", "safe", "opt ", "func ", "trusted ", "ghost ", "spec ", "axiom", "pure ", "mode ", "props "}
+var clauseKeywords = []string{"requires", "ensures", "assigns", "loop ", "at ", "after ", "safe", "opt ", "func ", "trusted ", "ghost ", "spec ", "axiom", "pure ", "mode ", "props ", "invariant", "establishes ", "noinv"}
 
 func startsWithKeyword(s string) bool {
 	for _, k := range clauseKeywords {
@@ -287,6 +288,14 @@ func ParseContractFile(path, pkgPath string) (*PkgContracts, error) {
 			a.Expr = e
 			pc.Axioms = append(pc.Axioms, a)
 			cur = nil
+		case strings.HasPrefix(t, "invariant"):
+			// package-level (global) invariant
+			c, err := mkClause("pkginv", strings.TrimSpace(strings.TrimPrefix(t, "invariant")))
+			if err != nil {
+				return nil, err
+			}
+			pc.Invariants = append(pc.Invariants, c)
+			cur = nil
 		case strings.HasPrefix(t, "pure "):
 			for _, nm := range strings.Split(strings.TrimPrefix(t, "pure "), ",") {
 				nm = strings.TrimSpace(nm)
@@ -322,6 +331,10 @@ func ParseContractFile(path, pkgPath string) (*PkgContracts, error) {
 			switch {
 			case t == "safe":
 				cur.Safe = true
+			case t == "noinv":
+				cur.Opts["noinv"] = "true"
+			case strings.HasPrefix(t, "establishes "):
+				cur.Opts["establishes"] = strings.TrimSpace(strings.TrimPrefix(t, "establishes "))
 			case strings.HasPrefix(t, "props "):
 				cur.Opts["props"] = strings.TrimSpace(strings.TrimPrefix(t, "props "))
 			case strings.HasPrefix(t, "opt "):
